@@ -188,14 +188,14 @@ Proof.
     + destruct (A1 id c Ef) as (c2 & Ef2 & P & Q). assert (c2 = c') as -> by congruence.
       rewrite P, Q. auto.
     + rewrite (B1 id c' Ef' Ef). apply blank1_heqv, spec1_unmentioned.
-      intros b Hin. destruct (ev1_of id b) as [e|] eqn:E; [|reflexivity].
-      exfalso. apply (chain_ok_known1 _ _ _ _ _ _ _ Hck Hin E). unfold negof1. rewrite Ef. reflexivity.
+      intros b Hin. destruct (evl_dec (evl1_of id b)) as [E|E]; [exact E|].
+      exfalso. apply (chain_ok_known1 _ _ _ _ _ _ Hck Hin E). unfold negof1. rewrite Ef. reflexivity.
   - intros id c' Ef'. destruct (find2 id (cs2 s)) as [c|] eqn:Ef.
     + destruct (A2 id c Ef) as (c2 & Ef2 & P & Q). assert (c2 = c') as -> by congruence.
       rewrite P, Q. auto.
     + rewrite (B2 id c' Ef' Ef). apply blank2_heqv, spec2_unmentioned.
-      intros b Hin. destruct (ev2_of id b) as [e|] eqn:E; [|reflexivity].
-      exfalso. apply (chain_ok_known2 _ _ _ _ _ _ _ Hck Hin E). unfold negof2. rewrite Ef. reflexivity.
+      intros b Hin. destruct (evl_dec (evl2_of id b)) as [E|E]; [exact E|].
+      exfalso. apply (chain_ok_known2 _ _ _ _ _ _ Hck Hin E). unfold negof2. rewrite Ef. reflexivity.
 Qed.
 
 Lemma plain_J buffer s K o : J buffer s K -> is_plain o = true -> J buffer (exec_plain o s) K.
